@@ -22,9 +22,6 @@ Record wf_sg (g : subgraph) : Prop := {
   wf_outputs : Forall (fun x => 0 <= x < ntens g) (sg_outputs g)
 }.
 
-Definition names_unique (g : subgraph) : Prop :=
-  NoDup (map (fun t => (t_root t, t_sfx t)) (sg_tensors g)).
-
 Definition wf_model (m : model) : Prop :=
   Forall wf_sg (m_subgraphs m)
   /\ Forall (fun g => Forall (fun o => 0 <= o_code o < lenZ (m_opcodes m)) (sg_ops g))
@@ -35,3 +32,7 @@ Definition wf_model (m : model) : Prop :=
                       0 <= sd_sg s /\
                       Forall (fun x => 0 <= x < ntens g) (sd_inputs s ++ sd_outputs s))
             (m_sigs m).
+
+(* C01: "tensor names are unique" (a name = interned root string + suffixes) *)
+Definition tname (t : tensor) : Z * list Z := (t_root t, t_sfx t).
+Definition names_unique (g : subgraph) : Prop := NoDup (map tname (sg_tensors g)).
